@@ -311,7 +311,7 @@ def b02(ctx, orc):
     for i, c in enumerate(cs):
         if lat[i] is not c:
             fails.append(f'lattice[{i}] is not the {i}-th member in iteration order')
-    if lat[-1] is not cs[-1] or lat[()] is not cs[-1] or _emask(orc, lat[()]) != orc.full_o:
+    if lat[()] is not cs[-1] or _emask(orc, lat[()]) != orc.full_o:
         fails.append('lattice[()] is not the top concept')
     for c in cs:
         e, i = _emask(orc, c), orc.pmask(c.intent)
@@ -416,8 +416,6 @@ def b10(ctx, orc):
             fails.append(f'objects label of {c.extent!r} = {c.objects!r}, expected {orc.object_labels(e)!r}')
         if tuple(c.properties) != orc.property_labels(e):
             fails.append(f'properties label of {c.extent!r} = {c.properties!r}, expected {orc.property_labels(e)!r}')
-        if not isinstance(c.objects, tuple) or not isinstance(c.properties, tuple):
-            fails.append(f'labels of {c.extent!r} are not tuples')
         down = [d for d in cs if ext[id(d)] & e == ext[id(d)]]
         up = [d for d in cs if ext[id(d)] & e == e]
         for rep in (1, 2):    # through the traversal API as well, twice
@@ -515,7 +513,7 @@ def b20(ctx, orc):
             kw['make_property_label'] = mp
         dot = lat.graphviz(**kw)
         nodes, edges, labels = parse_dot(dot.source)
-        if nodes != [f'c{c.index}' for c in cs] or len(set(nodes)) != len(cs):
+        if sorted(nodes) != sorted(f'c{c.index}' for c in cs) or len(set(nodes)) != len(cs):
             fails.append(f'{tag}: nodes {nodes} != one per concept')
         want_edges = sorted((f'c{c.index}', f'c{l.index}') for c in cs for l in cs
                             if orc.omask(l.extent) in orc.lower_covers(orc.omask(c.extent)))
